@@ -102,7 +102,7 @@ def bounded_lexer(tier, seed):
 
 spec.EXTRA_CHECKS = getattr(spec, 'EXTRA_CHECKS', {})
 spec.EXTRA_CHECKS.setdefault('C16', []).append(bounded_lexer)
-for _pid in ('C19', 'C06', 'C01'):        # what the lexer delivers is what is printed / compiled / run
+for _pid in ('C19', 'C06', 'C01', 'C18'):        # what the lexer delivers is what is printed / compiled / run
     spec.EXTRA_CHECKS.setdefault(_pid, []).append(bounded_lexer)
 
 
